@@ -19,6 +19,8 @@ import (
 	"github.com/anacrolix/dht/v2/int160"
 	k_nearest_nodes "github.com/anacrolix/dht/v2/k-nearest-nodes"
 	"github.com/anacrolix/generics"
+
+	"verif/sim"
 )
 
 type elemR = k_nearest_nodes.Elem
@@ -154,4 +156,101 @@ func TestRaceC17(t *testing.T) {
 		}()
 	}
 	wg.Wait()
+}
+
+// TestRaceServer: a real Server on the fake socket, free-running (no bubble, no scheduler): inbound
+// queries of every method from several sources, matched and unmatched responses, outbound queries
+// that are answered, time out or are cancelled, public API calls, blocklist installation and
+// finally Close, all at the same time. Feeds the race-directed stage of the Server-level sync tiers.
+func TestRaceServer(t *testing.T) {
+	for iter := 0; iter < 12; iter++ {
+		y := NewSys(WithPeerStore(), func(c *dht.ServerConfig) {
+			c.QueryResendDelay = func() time.Duration { return 3 * time.Millisecond }
+		})
+		stop := make(chan struct{})
+		var wg, bg sync.WaitGroup
+		// responder: answers every query the server writes to 61.x addresses
+		bg.Add(1)
+		go func() {
+			defer bg.Done()
+			seen := 0
+			for {
+				select {
+				case <-stop:
+					return
+				default:
+				}
+				ws := y.Conn.WritesSince(seen)
+				seen += len(ws)
+				for _, o := range DecodeWrites(ws) {
+					if o.Y() == "q" && o.To.IP[0] == 61 && o.To.Port != 6199 {
+						y.Conn.Inject(o.To, sim.Reply(o.T(), sim.M{"id": sim.IDStr(sim.InBucket(sim.Root, 3, o.To.Port%200))}))
+					}
+				}
+				time.Sleep(200 * time.Microsecond)
+			}
+		}()
+		for g := 0; g < 3; g++ {
+			g := g
+			wg.Add(1)
+			go func() {
+				defer wg.Done()
+				src := sim.UDP4(70, 1, byte(g), 1, 7000+g)
+				id := sim.IDStr(sim.InBucket(sim.Root, g, 9+g))
+				for i := 0; i < 25; i++ {
+					tid := fmt.Sprintf("%d.%d", g, i)
+					var b []byte
+					switch i % 6 {
+					case 0:
+						b = sim.Query(tid, "ping", sim.M{"id": id})
+					case 1:
+						b = sim.Query(tid, "find_node", sim.M{"id": id, "target": sim.IDStr(sim.Root)})
+					case 2:
+						b = sim.Query(tid, "get_peers", sim.M{"id": id, "info_hash": sim.IDStr(ihA)})
+					case 3:
+						b = sim.Query(tid, "get", sim.M{"id": id, "target": sim.IDStr(ihA)})
+					case 4:
+						b = sim.Query(tid, "announce_peer", sim.M{"id": id, "info_hash": sim.IDStr(ihA), "port": 1, "token": "x"})
+					case 5:
+						b = sim.Reply(tid, sim.M{"id": id})
+					}
+					y.Conn.Inject(src, b)
+				}
+			}()
+		}
+		for g := 0; g < 2; g++ {
+			g := g
+			wg.Add(1)
+			go func() {
+				defer wg.Done()
+				for i := 0; i < 6; i++ {
+					ctx, cancel := context.WithTimeout(context.Background(), time.Duration(1+i%3)*4*time.Millisecond)
+					port := 6111 + g
+					if i%3 == 2 {
+						port = 6199 // nobody answers
+					}
+					y.S.Query(ctx, dht.NewAddr(sim.UDP4(61, 1, 1, byte(1+g), port)), "ping", dht.QueryInput{NumTries: 2})
+					cancel()
+				}
+			}()
+		}
+		wg.Add(1)
+		go func() {
+			defer wg.Done()
+			for i := 0; i < 30; i++ {
+				y.S.Stats()
+				y.S.NumNodes()
+				y.S.Nodes()
+				y.S.ID()
+				y.S.AddNode(krpc.NodeInfo{ID: sim.InBucket(sim.Root, 5, i), Addr: krpc.NodeAddr{IP: net.IP{80, 1, 1, byte(i)}, Port: 8000 + i}})
+				if i == 15 {
+					y.S.SetIPBlockList(nil)
+				}
+			}
+		}()
+		wg.Wait()
+		y.S.Close()
+		close(stop)
+		bg.Wait()
+	}
 }
